@@ -188,10 +188,11 @@ def logic_cc():
     # how the ambiguity lookup turns the view into a key (PtStore.cc)
     p = strip_cpp_comments(read("src/pterms/PtStore.cc"))
     pb = norm(function_body(p, r"bool\s+PtStore::isAmbiguousNullarySymbolName\s*\(\s*std::string_view\s+name\s*\)\s*const\s*\{", "PtStore::isAmbiguousNullarySymbolName"))
-    if "symstore.getRefOrNull(name.data())" in pb:
+    if "symstore.getRefOrNull(name.data())" in pb and "if (symstore[sr].nargs() == 0) { matches++; }" in pb:
         res["view_data"] = True      # C string from the view's start: runs to the NUL of the protected name
     elif re.search(r"getRefOrNull\(std::string\(name\)(\.c_str\(\)|\.data\(\))?\)", pb) or "getRefOrNull(name)" in pb \
-            or ("std::string const key(name);" in pb and "symstore.getRefOrNull(key.c_str())" in pb):
+            or ("std::string const key(name);" in pb and "symstore.getRefOrNull(key.c_str())" in pb
+                and "if (symstore[sr].nargs() == 0 and not symstore[sr].isInterpreted()) { matches++; }" in pb):
         res["view_data"] = False
     else:
         raise TranslateError("PtStore::isAmbiguousNullarySymbolName: lookup key not recognised: " + pb[:200])
